@@ -36,6 +36,11 @@ LOOKUPS = [
     {"k": "resolve", "path": H("a/b/../hlink")},
     {"k": "resolve", "path": H("a/b/c/../../hfile")},
     {"k": "open", "path": H("a/b/../hfile"), "flags": O["RDONLY"]},
+    # a '..' that is expected to land on the root itself, and what is looked up from there
+    {"k": "resolve", "path": H("a/..")},
+    {"k": "open", "path": H("d/../."), "flags": O["PATH"] | O["DIRECTORY"]},
+    {"k": "resolve", "path": H("a/../hfile")},
+    {"k": "readlink", "path": H("d/../hlink")},
 ]
 
 
